@@ -719,6 +719,17 @@ func randomGrammar(r *rng.R) gcase {
 		}
 		_ = i
 	}
+	if r.Chance(1, 6) {
+		// ε + a factorable group + an alternative with a first symbol of its own, on one head
+		// (LeftFactor clears the head and rebuilds it from the groups: nothing may get lost)
+		A := nts[r.Intn(nn)]
+		x := T(terms[r.Intn(nt)])
+		y := NT(nts[r.Intn(nn)])
+		c.prods = append(c.prods, prod{A, []sym{}},
+			prod{A, append([]sym{x}, randBody(r.Range(0, 2))...)},
+			prod{A, append([]sym{x}, randBody(r.Range(1, 3))...)},
+			prod{A, []sym{y, T(terms[r.Intn(nt)])}})
+	}
 	if r.Chance(1, 8) {
 		c.extraT = []string{"z"}
 	}
@@ -816,6 +827,9 @@ func adversarial(w *tr.W, r *rng.R, n int, ops []string) {
 				}
 			}
 			c.prods = append(c.prods, prod{"S", []sym{T("skip")}})
+			if r.Bool() {
+				c.prods = append(c.prods, prod{"S", []sym{}}) // ε next to the groups and the singleton
+			}
 			if r.Bool() {
 				c.prods = append(c.prods, prod{"S", []sym{T("z"), NT("S")}})
 			}
